@@ -481,10 +481,12 @@ def aligned(ctx):
         p1 = spec.pmin + shift * cell
         other = df.Mesh(p1=p1.tolist(), p2=(p1 + n2 * cell).tolist(), n=[int(k) for k in n2])
         what = {"shift_cells": shift, "n2": n2, "spec": spec.describe()}
-        if np.max(np.abs(shift)) <= 6 or spec.dyadic:
-            # (far apart, "a whole number of the mesh's cells" is only well defined when the
-            # arithmetic is exact: the rounding of edges/n times 1e6 cells exceeds the
-            # documented absolute tolerance 1e-12 otherwise - rule R5)
+        if (np.max(np.abs(shift)) <= 6 and np.max(spec.n) <= 12) or spec.dyadic:
+            # (far apart, or along an axis of dozens of cells, "a whole number of the mesh's
+            # cells" is only well defined when the arithmetic is exact: the cell size of the
+            # other mesh carries the rounding of its corners, and that error times the number
+            # of cells between the corners exceeds the documented tolerance (1e-12 plus the
+            # resolution of ONE coordinate) - rule R5)
             ctx.check("C14.is_aligned.true",
                       bool(mesh.is_aligned(other)) and bool(other.is_aligned(mesh)),
                       what=what, note="whole-cell shift reported as not aligned")
